@@ -16,7 +16,7 @@ def order_case(args) -> dict:
     try:
         from sedpack.io import Dataset
         kept, ref = dsfamily.build(root, name, uuids=uuids)
-        fmt = dsfamily.RECIPES[name][0]
+        fmt = (dsfamily.RECIPES.get(name) or dsfamily.EXTRA[name])[0]
         fresh = Dataset(root)
         name = f"{name}[uuids {uuids}]" if uuids else name
         for split, want in ref.items():
@@ -97,8 +97,10 @@ def run(ctx):
         tot = seqs = 0
         tasks = [(n, ctx.tier) for n in dsfamily.RECIPES]
         # generated directory names in increasing and in decreasing order
-        tasks += [(n, ctx.tier, o) for n in ("multi", "multi4", "nested")
+        tasks += [(n, ctx.tier, o) for n in ("multi", "multi4", "nested",
+                                             "multi12")
                   for o in ("ascending", "descending")]
+        tasks.append(("multi12", ctx.tier))
         for r in ex.map(order_case, tasks):
             if r["harness"]:
                 ctx.harness_error(f"{r['name']}: {r['harness']}")
